@@ -1,0 +1,165 @@
+/*
+ * Trace hooks for model-based verification (cargo feature `verif-trace`).
+ *
+ * Nothing in this module is compiled unless the feature is enabled. When the
+ * environment variable `CEDAR_VERIF_TRACE` names a file prefix, each hook
+ * appends one JSON line per observed operation to `<prefix>.<pid>`, under a
+ * process-wide mutex and with a sequence number. Events are self-contained
+ * (pre-state, operation, arguments, result, post-state), so they can be
+ * validated in any order.
+ */
+//! Trace hooks (feature `verif-trace`): see the module comment.
+#![allow(
+    clippy::unwrap_used,
+    clippy::expect_used,
+    clippy::print_stderr,
+    missing_docs,
+    reason = "verification-only instrumentation, never compiled into normal builds"
+)]
+
+use crate::ast::{Effect, Entity, EntityUID, PolicySet, Request};
+use crate::authorizer::{Authorizer, Decision};
+use crate::entities::Entities;
+use crate::evaluator::Evaluator;
+use crate::extensions::Extensions;
+use serde_json::{json, Value};
+use std::collections::hash_map::DefaultHasher;
+use std::collections::{BTreeSet, HashMap};
+use std::hash::{Hash, Hasher};
+use std::io::Write;
+use std::sync::{Arc, Mutex, OnceLock};
+
+static SINK: OnceLock<Option<Mutex<(std::fs::File, u64)>>> = OnceLock::new();
+
+/// Append one event (no-op unless `CEDAR_VERIF_TRACE` is set).
+pub fn emit(mut ev: Value) {
+    let sink = SINK.get_or_init(|| {
+        std::env::var("CEDAR_VERIF_TRACE").ok().and_then(|prefix| {
+            std::fs::OpenOptions::new()
+                .create(true)
+                .append(true)
+                .open(format!("{prefix}.{}", std::process::id()))
+                .ok()
+                .map(|f| Mutex::new((f, 0)))
+        })
+    });
+    if let Some(m) = sink {
+        if let Ok(mut g) = m.lock() {
+            g.1 += 1;
+            ev["seq"] = json!(g.1);
+            let _ = writeln!(g.0, "{ev}");
+        }
+    }
+}
+
+pub fn enabled() -> bool {
+    std::env::var("CEDAR_VERIF_TRACE").is_ok()
+}
+
+fn data_hash(e: &Entity) -> String {
+    // identity of the entity's data (attributes and tags), as used by duplicate detection
+    let mut attrs: Vec<String> = e.attrs().map(|(k, v)| format!("{k}={v:?}")).collect();
+    attrs.sort();
+    let mut tags: Vec<String> = e.tags().map(|(k, v)| format!("{k}={v:?}")).collect();
+    tags.sort();
+    let mut h = DefaultHasher::new();
+    (attrs, tags).hash(&mut h);
+    format!("{:x}", h.finish())
+}
+
+fn entity_row(e: &Entity) -> Value {
+    let par: BTreeSet<String> = e.parents().map(ToString::to_string).collect();
+    let anc: BTreeSet<String> = e.ancestors().map(ToString::to_string).collect();
+    json!([e.uid().to_string(), par, data_hash(e), anc])
+}
+
+/// uid -> (direct parents, data identity, ancestor closure) of every entity in the map
+pub fn project_entities(map: &HashMap<EntityUID, Arc<Entity>>) -> Value {
+    let mut rows: Vec<(String, Value)> = map
+        .values()
+        .map(|e| (e.uid().to_string(), entity_row(e)))
+        .collect();
+    rows.sort_by(|a, b| a.0.cmp(&b.0));
+    Value::Array(rows.into_iter().map(|r| r.1).collect())
+}
+
+/// the argument batch of an add / upsert / from: (uid, all given ancestors, data identity)
+pub fn project_batch<'a>(batch: impl Iterator<Item = &'a Entity>) -> Value {
+    Value::Array(
+        batch
+            .map(|e| {
+                let anc: BTreeSet<String> = e.ancestors().map(ToString::to_string).collect();
+                json!([e.uid().to_string(), anc, data_hash(e)])
+            })
+            .collect(),
+    )
+}
+
+/// Records one entity-store operation. Created on entry; `ok` is called with
+/// the resulting map on the success path; dropping it without `ok` records a
+/// failed operation (which produced no store).
+#[derive(Debug)]
+pub struct StoreOp {
+    op: &'static str,
+    mode: String,
+    schema: bool,
+    arg: Value,
+    pre: Value,
+    done: bool,
+}
+
+impl StoreOp {
+    pub fn new(op: &'static str, mode: impl std::fmt::Debug, schema: bool, arg: Value, pre: Value) -> Self {
+        Self { op, mode: format!("{mode:?}"), schema, arg, pre, done: false }
+    }
+    pub fn ok(&mut self, post: Value) {
+        self.done = true;
+        emit(json!({"ev": "EsOp", "src": "hook", "op": self.op, "mode": self.mode, "schema": self.schema, "arg": self.arg,
+                    "res": ["ok"], "pre": self.pre, "post": post, "isAnc": [], "in": [], "scopeIn": []}));
+    }
+}
+
+impl Drop for StoreOp {
+    fn drop(&mut self) {
+        if !self.done {
+            emit(json!({"ev": "EsOp", "src": "hook", "op": self.op, "mode": self.mode, "schema": self.schema, "arg": self.arg,
+                        "res": ["err", "any"], "pre": self.pre, "post": self.pre, "isAnc": [], "in": [], "scopeIn": []}));
+        }
+    }
+}
+
+/// Records one authorization: the outcome of every policy (evaluated on its
+/// own) and the response the authorizer gives for the same inputs.
+pub fn authz_event(q: &Request, pset: &PolicySet, entities: &Entities, extensions: &Extensions<'_>) {
+    if !enabled() {
+        return;
+    }
+    let eval = Evaluator::new(q.clone(), entities, extensions);
+    let mut pols = vec![];
+    for p in pset.policies() {
+        let outcome = match eval.evaluate(p) {
+            Ok(true) => "sat",
+            Ok(false) => "unsat",
+            Err(_) => "err",
+        };
+        let effect = match p.effect() {
+            Effect::Permit => "permit",
+            Effect::Forbid => "forbid",
+        };
+        pols.push(json!([p.id().to_string(), effect, outcome]));
+    }
+    let resp = Authorizer::new().is_authorized_core(q.clone(), pset, entities).concretize();
+    let reasons: BTreeSet<String> = resp.diagnostics.reason.iter().map(ToString::to_string).collect();
+    let mut errors: Vec<String> = resp
+        .diagnostics
+        .errors
+        .iter()
+        .map(|e| match e {
+            crate::authorizer::AuthorizationError::PolicyEvaluationError { id, .. } => id.to_string(),
+        })
+        .collect();
+    errors.sort();
+    emit(json!({"ev": "AuthzHook", "pols": pols,
+                "decision": if resp.decision == Decision::Allow { "Allow" } else { "Deny" },
+                "reasons": reasons, "errors": errors}));
+}
